@@ -259,6 +259,199 @@ func oneLabelString(s string, withRel bool) {
 			roundTrip(l2, rin, s+" relative to "+pkg)
 		}
 	}
+	stability(s)
+}
+
+// stability: a label string means the same label whatever the process did before. The callers of Parse own the
+// label they get and change it: module loading sets Project and, on the result of RelativeTo (which is the receiver
+// itself for an absolute label), Kind = "module"; the command line's labelOrNearestDefault walks Package up to the
+// parent. After all of that, Parse(s) must still be what it was the first time, and print the same.
+func stability(s string) {
+	l, err, pan := rParse(s)
+	if err != nil || pan != nil {
+		return
+	}
+	stats["stability_checked"]++
+	saved, savedPrinted := *l, l.String()
+	in := map[string]any{"op": "stab", "s": hx(s)}
+	use := func(x *label.Label) {
+		if x == nil {
+			return
+		}
+		safe(func() {
+			for _, pkg := range []string{"//", "//lib", "//a/b"} {
+				r, err := x.RelativeTo(pkg)
+				if err != nil || r == nil {
+					continue
+				}
+				if r.Project == "" {
+					r.Project = "example.com/proj"
+				}
+				r.Kind = "module"
+				r.Package = label.Parent(r.Package)
+				_ = r.String()
+			}
+		})
+	}
+	use(l)
+	if l2, err, _ := rParse(s); err == nil { // a second holder of the same string
+		use(l2)
+	}
+	if n, err := label.New(saved.Kind, saved.Project, saved.Package, saved.Name); err == nil {
+		use(n)
+	}
+	again, err, pan := rParse(s)
+	switch {
+	case pan != nil:
+		violation("panic", in, s, fmt.Sprint("Parse panicked: ", pan))
+	case err != nil:
+		violation("parse-depends-on-history", in, s, fmt.Sprintf("accepted as %+v at first, rejected after the label was used: %v", saved, err))
+	case *again != saved:
+		violation("parse-depends-on-history", in, s, fmt.Sprintf("%q parsed to %+v at first and to %+v after earlier results were used the way module loading and the command line use them", s, saved, *again))
+	case again.String() != savedPrinted:
+		violation("parse-depends-on-history", in, s, fmt.Sprintf("printed %q at first and %q later", savedPrinted, again.String()))
+	}
+}
+
+// endToEnd: the same through the real loader: a generated project whose build files load modules by absolute and by
+// relative label; the label strings are parsed before dawn.Load and again after it.
+func endToEnd(n int, r *rng) {
+	base, err := os.MkdirTemp("", "verif-label-e2e-")
+	if err != nil {
+		return
+	}
+	defer os.RemoveAll(base)
+	os.Setenv("HOME", filepath.Join(base, "home"))
+	os.MkdirAll(filepath.Join(base, "home"), 0o755)
+	for i := 0; i < n; i++ {
+		lib := r.pick([]string{"lib", "tools", "a", "x.y", "lib-2"})
+		deep := r.pick([]string{"deep", "b", "internal"})
+		sub := r.pick([]string{"sub", "cmd", "docs"})
+		root := filepath.Join(base, fmt.Sprintf("p%d", i))
+		files := map[string]string{
+			"dawn.toml":                  "name = 'e2e'\n",
+			"BUILD.dawn":                 fmt.Sprintf("load(\"//%s:defs.dawn\", \"f\")\nload(\"//%s/%s:more.dawn\", \"g\")\n\n@target()\ndef default():\n    pass\n", lib, lib, deep),
+			lib + "/defs.dawn":           fmt.Sprintf("load(\"//%s/%s:more.dawn\", \"g\")\n\ndef f():\n    g()\n", lib, deep),
+			lib + "/" + deep + "/more.dawn": "def g():\n    pass\n",
+			sub + "/BUILD.dawn":          fmt.Sprintf("load(\"//%s:defs.dawn\", \"f\")\nload(\":local.dawn\", \"h\")\n\n@target(deps=[\"//:default\"])\ndef default():\n    pass\n", lib),
+			sub + "/local.dawn":          "def h():\n    pass\n",
+		}
+		for name, text := range files {
+			p := filepath.Join(root, filepath.FromSlash(name))
+			os.MkdirAll(filepath.Dir(p), 0o755)
+			os.WriteFile(p, []byte(text), 0o644)
+		}
+		strs := []string{"//" + lib + ":defs.dawn", "//" + lib + "/" + deep + ":more.dawn", ":local.dawn", "//:default", "//" + sub + ":default",
+			"//" + sub + ":local.dawn", "module://" + lib + ":defs.dawn", ":default"}
+		type snap struct {
+			l       label.Label
+			printed string
+		}
+		before := map[string]snap{}
+		for _, s := range strs {
+			if l, err, _ := rParse(s); err == nil {
+				before[s] = snap{*l, l.String()}
+			}
+		}
+		var proj *dawn.Project
+		var lerr error
+		pan := safe(func() { proj, lerr = dawn.Load(root, &dawn.LoadOptions{}) })
+		stats["e2e_projects"]++
+		if pan != nil || lerr != nil {
+			stats["e2e_load_failed"]++
+			fmt.Fprintf(os.Stderr, "e2e load: %v %v\n", pan, lerr)
+			continue
+		}
+		// what the command line does with a label argument
+		for _, s := range []string{"//" + sub + ":default", "//:default"} {
+			if l, err, _ := rParse(s); err == nil {
+				safe(func() {
+					for l.Package != "//" {
+						if _, err := proj.Target(l); err == nil {
+							break
+						}
+						l.Package = label.Parent(l.Package)
+					}
+				})
+			}
+		}
+		for _, s := range strs {
+			b, ok := before[s]
+			if !ok {
+				continue
+			}
+			stats["e2e_labels_reparsed"]++
+			l, err, pan := rParse(s)
+			in := map[string]any{"op": "e2e", "s": hx(s)}
+			if pan != nil || err != nil || *l != b.l || l.String() != b.printed {
+				detail := fmt.Sprintf("before loading the project %q parsed to %+v (printed %q); after: ", s, b.l, b.printed)
+				if l != nil {
+					detail += fmt.Sprintf("%+v (printed %q)", *l, l.String())
+				} else {
+					detail += fmt.Sprint(err, pan)
+				}
+				violation("parse-depends-on-history", in, s, detail)
+			}
+		}
+	}
+}
+
+// ---- build records: targetInfoPath must tell labels apart and stay below the directory of the kind
+
+func tipJudge(work string) {
+	elems := []string{"a", "b", "docs", "api", "a.b", "%2F", "é", ".x", "a%2Fb"}
+	pkgs := []string{"//"}
+	for _, a := range elems {
+		pkgs = append(pkgs, "//"+a)
+		for _, b := range elems[:6] {
+			pkgs = append(pkgs, "//"+a+"/"+b)
+			for _, c := range elems[:4] {
+				pkgs = append(pkgs, "//"+a+"/"+b+"/"+c)
+			}
+		}
+	}
+	names := []string{".", "..", "...", "a", "b", "docs", "api", "a.b", "%2F", "a%2Fb", "é", ".x", "docs%2F.", "%2Fdocs", "世", "a b", "~", "BUILD", "x.dawn"}
+	seen := map[string]label.Label{}
+	for _, kind := range []string{"", "source"} {
+		dir := filepath.Join(work, "targets")
+		if kind != "" {
+			dir = filepath.Join(work, kind+"s")
+		}
+		for _, g := range pkgs {
+			for _, nm := range names {
+				l, err := label.New(kind, "", g, nm)
+				if err != nil {
+					continue
+				}
+				var p string
+				in := map[string]any{"op": "tip", "s": lab(l)}
+				if pan := safe(func() { p = dawn.VerifLabelTargetInfoPath(work, l) }); pan != nil {
+					violation("panic", in, l.String(), fmt.Sprint("targetInfoPath panicked: ", pan))
+					continue
+				}
+				stats["record_paths_judged"]++
+				if filepath.Dir(p) != dir || p == dir {
+					violation("record-path-not-below-its-kind-directory", in, l.String(), fmt.Sprintf("record of %s is %q, not a file directly in %q", l, p, dir))
+				}
+				if prev, ok := seen[p]; ok && prev != *l {
+					pl := prev
+					violation("record-path-collision", map[string]any{"op": "tip2", "s": lab(l), "t": lab(&pl)}, l.String(),
+						fmt.Sprintf("%s and %s share the record %q", &pl, l, p))
+				} else {
+					seen[p] = *l
+				}
+			}
+		}
+	}
+	stats["record_paths_distinct"] = len(seen)
+}
+
+func parseLab(s string) *label.Label {
+	f := strings.Split(s, ",")
+	if len(f) != 4 {
+		os.Exit(2)
+	}
+	return &label.Label{Kind: unhx(f[0]), Project: unhx(f[1]), Package: unhx(f[2]), Name: unhx(f[3])}
 }
 
 // every string over alpha up to maxLen symbols, shortest first (so the first failing input reported is a shortest one)
@@ -382,6 +575,12 @@ func replay(js string) {
 		oneLabelString(unhx(c["s"]), true)
 	case "rsp", "slabel":
 		onePair(unhx(c["pkg"]), unhx(c["path"]))
+	case "stab":
+		stability(unhx(c["s"]))
+	case "e2e":
+		endToEnd(2, &rng{1})
+	case "tip", "tip2":
+		tipJudge("/w/.dawn/build") // the whole family: a collision needs its partner
 	case "new":
 		f := strings.Split(c["s"], ",")
 		if len(f) != 4 {
@@ -676,6 +875,13 @@ func main() {
 			}
 		}
 	}
+
+	tipJudge("/w/.dawn/build")
+	e2e := 3
+	if thorough {
+		e2e = 25
+	}
+	endToEnd(e2e, r)
 
 	stats["violations"] = nviol
 	b, _ := json.Marshal(stats)
